@@ -154,6 +154,9 @@ impl Prop for C17 {
             (Tier::Thorough, _) => 2_000_000,
         }
     }
+    // `native`: the same code compiled with `-C target-cpu=native` (code paths selected by
+    // `cfg(target_feature = ...)`)
+    fn builds(&self, _tier: Tier) -> Vec<&'static str> { vec!["fast", "checked", "native"] }
     fn rule(&self) -> &'static str {
         "enumerated: every byte value x every byte position x every in-byte rank x {zero, all-ones, random} context for select_in_word (complete cover of the 2048-entry table); generated: words (random, sparse, dense, 0x00/0xFF bytes, single bit) x k for select_in_word and select_in_word_u128 (every k for each word), popcnt_wide<N> for N in 1..=8,16, msb over all 12 primitive types, stable_partition_of_4/2 over 6 element types and every shift below the width, text_remap; non-trivial = word with popcount >= 2 queried at 0 < k, or a partition input with >= 2 non-empty buckets and shift > 0, or a remap input with >= 2 distinct bytes; distinct = hash of the case"
     }
